@@ -186,4 +186,13 @@ def obligations(cx):
 
 def replay_case(r):
     nm = r['name']
-    return dict(name=nm, model='UNIQUAC' if 'UNIQUAC' in nm else 'NRTL', mode='temperature' if 'temperature' in nm else 'pressure' if 'pressure' in nm else 'vacuum')
+    model = 'UNIQUAC' if 'UNIQUAC' in nm else 'NRTL'
+    mode = 'temperature' if 'temperature' in nm else 'pressure' if 'pressure' in nm else 'vacuum'
+    out = []
+    for b, x, T in (('H2O_EtOH', 0.15, 333.15), ('H2O_MeOH', 0.4, 318.15), ('EtOH_ETBE', 0.3, 343.15), ('H2O_iPOH', 0.7, 353.15)):
+        c = dict(name=nm, builtin=b, model=model, mode=mode, x=x, T=T, Tp=T - 55.0, pp=0.6)
+        if nm.startswith('process.'):
+            c['func'] = 'ideal_non_isothermal_process' if 'non_isothermal' in nm else 'ideal_isothermal_process'
+            c['proc'] = dict(x0=x, T0=T, Tp=T - 55.0, pp=0.6, program='.program' in nm, A=0.4, m0=1.5, N=4, dt=0.2)
+        out.append(c)
+    return out
